@@ -334,22 +334,26 @@ func (s *Stmt) apply(t *Table, st *TabState, auto *int64) ([]Effect, bool) {
 		}
 		return []Effect{e}, true
 	case "upsert":
-		r := s.Rows[0]
-		i := st.find(r.Key)
-		if i < 0 {
-			row := Row{Key: append([]Val{}, r.Key...), Vals: append([]Val{}, r.Vals...)}
-			if len(t.Keys) == 1 && t.Keys[0].AutoInc && row.Key[0].int() >= *auto {
-				*auto = row.Key[0].int() + 1
+		var effs []Effect
+		for _, r := range s.Rows {
+			i := st.find(r.Key)
+			if i < 0 {
+				row := Row{Key: append([]Val{}, r.Key...), Vals: append([]Val{}, r.Vals...)}
+				if len(t.Keys) == 1 && t.Keys[0].AutoInc && row.Key[0].int() >= *auto {
+					*auto = row.Key[0].int() + 1
+				}
+				st.Rows = append(st.Rows, row)
+				effs = append(effs, Effect{Kind: "insert", Table: t.Name, Rows: []Row{row}})
+				continue
 			}
-			st.Rows = append(st.Rows, row)
-			return []Effect{{Kind: "insert", Table: t.Name, Rows: []Row{row}}}, true
+			nv := append([]Val{}, st.Rows[i].Vals...)
+			for _, it := range s.Set {
+				nv[it.Col] = r.Vals[it.Col]
+			}
+			st.Rows[i].Vals = nv
+			effs = append(effs, Effect{Kind: "update", Table: t.Name, Rows: []Row{{Key: r.Key, Vals: append([]Val{}, nv...)}}})
 		}
-		nv := append([]Val{}, st.Rows[i].Vals...)
-		for _, it := range s.Set {
-			nv[it.Col] = r.Vals[it.Col]
-		}
-		st.Rows[i].Vals = nv
-		return []Effect{{Kind: "update", Table: t.Name, Rows: []Row{{Key: r.Key, Vals: append([]Val{}, nv...)}}}}, true
+		return effs, true
 	case "update":
 		mask := make([]bool, len(t.Cols))
 		for _, it := range s.Set {
